@@ -89,6 +89,34 @@ def toy_curve(
     return Curve(*t, weakness_check=False), RefCurve(t[0], t[1], t[2], t[3], t[4]), t
 
 
+_KIN: list[dict[str, Any]] | None = None
+
+
+def kin_curves() -> list[dict[str, Any]]:
+    """Caller-defined curves over the FIELD of a catalogued curve that are not that curve: the other twist classes of
+    y^2 = x^3 + b over the fields of the four a == 0 curves, and the quadratic twists of the a != 0 ones, each with
+    the largest prime-order subgroup a partial factorization of the group order gives (computed offline with
+    sympy: trace arithmetic for the sextic twists, 2(p+1) - #E for the quadratic ones; a generator drawn and
+    checked there, and checked again by the constructor here). Whatever the library keys on a field or on a == 0
+    rather than on the curve -- endomorphism constants, tables, memos -- meets the wrong group on these."""
+    global _KIN  # noqa: PLW0603
+    if _KIN is None:
+        import json  # noqa: PLC0415
+        import os  # noqa: PLC0415
+
+        with open(os.path.join(os.path.dirname(__file__), "data", "kin_curves.json")) as f:
+            _KIN = json.load(f)
+    return _KIN
+
+
+def kin_curve(ctx: Ctx, max_bits: int = 521) -> tuple[Curve, RefCurve, str]:
+    ks = [k for k in kin_curves() if k["p"].bit_length() <= max_bits]
+    k = ks[ctx.ch.draw(len(ks), "kin.which")]
+    G = (k["G"][0], k["G"][1])
+    ec = Curve(k["p"], k["a"], k["b"], G, k["n"], k["h"], weakness_check=bool(ctx.ch.draw(2, "kin.checks")))
+    return ec, RefCurve(k["p"], k["a"], k["b"], G, k["n"]), f"kin-of-{k['like']}:b={k['b'] if k['b'] < 1000 else 'p-' + str(k['p'] - k['b']) if k['p'] - k['b'] < 1000 else hex(k['b'])[:12]}"
+
+
 def twin(ec: Curve) -> Any:
     """An equal but not identical curve object (shares cache entries by equality)."""
     return Curve(ec.p, ec._a, ec._b, ec.G, ec.n, ec.cofactor, weakness_check=False, order_check=False, name=ec.name)
